@@ -33,20 +33,14 @@ def excluded_formula(conds, elem):
 
 
 def interface_loop(e):
-    """innermost loop of the event enumerates the id lists of frame.internal_big_edges -> (position term, element term)"""
+    """innermost loop of the event runs over frame.internal_big_edges (canonical form of a loop over the list of their id
+    lists, see sym.canon_loop) -> (position term, id list of the element)"""
     lp = e.loops()
     if not lp:
         return None
-    L, it = lp[-1][1], lp[-1][2]
-    bv = ("bv", L)
-    ids = None
-    b = None
-    if it[0] == "call" and it[1] == "enumerate" and len(it[2]) == 1:
-        src, pos, elem = it[2][0], T.idx(bv, T.num(0)), T.idx(bv, T.num(1))
-    else:
-        src, pos, elem = it, None, bv
-    if src[0] == "map" and src[3] == IBE and src[4] == T.TRUE and src[1] == T.call("forsys.edge.BigEdge.get_vertices_ids", (src[2],)):
-        return pos, elem
+    ro = rules.roles(lp[-1])
+    if ro.base == IBE and ro.kind in ("enumerate", "plain") and ro.elem is not None:
+        return ro.pos, T.call("forsys.edge.BigEdge.get_vertices_ids", (ro.elem,))
     return None
 
 
@@ -130,10 +124,11 @@ def run(ctx):
                     vers_ok = False
                     if vers is not None and vers[0] == "map" and vers[4] == T.TRUE:
                         velt, vb, vit = vers[1], vers[2], vers[3]
-                        want = T.call("forsys.edge.BigEdge.get_versor_from_vertex", (vb, vid), (("fit_method", T.attr(SELF, "circle_fit_method")),))
-                        own = ("map", T.idx(T.attr(T.attr(SELF, "frame"), "big_edges"), ("bv", 0)), ("bv", 0),
-                               T.attr(T.idx(T.attr(T.attr(SELF, "frame"), "vertices"), vid), "own_big_edges"), T.TRUE)
-                        vers_ok = velt == want and T.alpha(vit) == T.alpha(own)
+                        # canonical (fused) form: one comprehension over the junction's own interface ids
+                        want = T.call("forsys.edge.BigEdge.get_versor_from_vertex", (T.idx(T.attr(T.attr(SELF, "frame"), "big_edges"), vb), vid),
+                                      (("fit_method", T.attr(SELF, "circle_fit_method")),))
+                        own = T.attr(T.idx(T.attr(T.attr(SELF, "frame"), "vertices"), vid), "own_big_edges")
+                        vers_ok = velt == want and vit == own
                     good = pair_ok and comb_ok and vers_ok
                     if not pair_ok:
                         detail.append("angle of a pair is not arccos(dot(t_a, t_b))")
